@@ -1114,6 +1114,15 @@ func checkC11(r *Run) {
 	convertKindRule(r, "R8")
 	r.Rule("R9", "the member tail of an index path is never dropped: an evaluator function that takes the index node yields a value only where it found the node's callee nil, or from a function it handed the node to", 1)
 	indexTailRule(r, "R9")
+	r.Rule("R10", "the index of a path is read where the path is evaluated: the scope in which the rest of an indexed path (a[i].b[j]) is evaluated is built at that access - a fresh child of the scope current on entry, put back by a defer - never one kept from an earlier access (its copy of i and j would be stale)", 1)
+	scopeDisciplineRuleFor(r, "R10", func(root *ssa.Function) bool {
+		for _, prm := range root.Params {
+			if pt, ok := prm.Type().(*types.Pointer); ok && namedIs(pt.Elem(), astPath, "IndexExpression") {
+				return true
+			}
+		}
+		return false
+	})
 }
 
 var _ = fmt.Sprint
